@@ -70,6 +70,17 @@ CreateRefused(s, n) ==
   /\ LogS("CreateRefused", s, n, 0, 0, FALSE)
   /\ UNCHANGED <<now, val, best, ahead>>
 
+\* RENAME INBOX n (State.renameInbox): the name n is (re-)created with a fresh value - one Generate() call - and takes over
+\* INBOX's messages; INBOX itself stays as it is
+RenameInbox(s, n) ==
+  /\ val[n] = None /\ s # "conn"
+  /\ LET v == Gen(last) IN
+     /\ val' = [val EXCEPT ![n] = v]
+     /\ best' = [best EXCEPT ![n] = IF v > @ THEN v ELSE @]
+     /\ last' = v
+     /\ LogS("RenameInbox", s, n, 0, v, v <= best[n])
+  /\ UNCHANGED <<now, ahead>>
+
 Delete(s, n) ==
   /\ val[n] # None
   /\ val' = [val EXCEPT ![n] = None]
@@ -104,6 +115,7 @@ Restart(dt) ==
 Free ==
   \/ "Create" \in Kinds /\ \E s \in Sessions, n \in Names : Create(s, n)
   \/ "Delete" \in Kinds /\ \E s \in Sessions, n \in Names : Delete(s, n)
+  \/ "RenameInbox" \in Kinds /\ \E s \in Sessions, n \in Names : RenameInbox(s, n)
   \/ "CreateRefused" \in Kinds /\ \E s \in Sessions, n \in Names : CreateRefused(s, n)
   \/ "Bump" \in Kinds /\ Bump
   \/ "Restart" \in Kinds /\ \E dt \in Dts : Restart(dt)
